@@ -245,3 +245,25 @@ def check(run, prog, tier):
     run.rule("C14-e", "output path (src/comm.c): where text is formatted with snprintf()/vsnprintf() into a fixed buffer and the result is compared with the buffer size, the side treated as 'the buffer holds the whole text' contains only results <= size - 1 (the functions return the untruncated length; size - 1 characters fit). The rule is exercised program-wide (every such comparison in the driver is decided, see C01-q); on this path there may be none", 0)
     fitrule.check(run, prog, "C14-e", lambda f: f.file.endswith("src/comm.c"), 0, 5,
                   "a message of exactly the buffer size loses its last byte although the connection is healthy")
+
+    # ---- C14-f the urgent mark sits on the DATA MARK
+    run.rule("C14-f", "telnet Synch: `out_of_band = message_length` declares the last byte in the ring to be the DATA MARK that flush_message() sends as TCP urgent data (and an ordinary client never sees in its data stream); the store is made only where the reply that ends in the DATA MARK has certainly been queued - under a test that message_length leaves room for it (<= size - 2) - because the queueing helpers drop what does not fit without telling", 1)
+    nf = 0
+    for f in sorted(comm.funcs.values(), key=lambda x: x.line):
+        for j, (b, i, n) in enumerate([x for x in f.nodes() if x[2].get("k") == "Asg" and x[2].get("op") == "=" and fld(x[2]["L"], "out_of_band") and any(fld(y, "message_length") for y in walk(x[2]["R"]))]):
+            nf += 1
+            run.saw(f)
+            room = None
+            for c, t, B in cfgq.guards(f, b.id):
+                op, l, r = atom_of(c, t)
+                if r is None or not fld(l, "message_length"):
+                    continue
+                k = const_val(r)
+                if k is None:
+                    continue
+                if (op == "<=" and k <= SIZE - 2) or (op == "<" and k <= SIZE - 1):
+                    room = "%s %s %d" % ("message_length", op, k)
+            run.ob("C14-f", "mark-after-queue:%s:%d" % (f.name, j), room is not None, "`%s` under `%s`: the two bytes of IAC DM fit, so the byte marked is the DATA MARK" % (show(n)[:50], room) if room else
+                   "`%s` (line %s) is not under a test that the ring has room for the reply: when it does not fit, the helper drops it and the mark lands on the last byte of ordinary output, which is then sent as urgent data and missing from the client's stream" % (show(n)[:50], n.get("l")),
+                   f.file, n.get("l"), f.name, what="%s marks a byte as the telnet DATA MARK without knowing that the DATA MARK was queued" % f.name)
+    run.need(nf >= 1, "stores of message_length into out_of_band (found %d)" % nf)
